@@ -2,10 +2,10 @@ SPECIFICATION Spec
 CONSTANTS
   W = 3
   MaxLen = 3
-  Words3 = {0, 2, 6}
-  MixWords = {0, 2, 6}
+  Words3 = {2, 6}
+  MixWords = {2, 6}
   RecLen = 1
-  GeomLen = 3
+  GeomLen = 2
   Kinds = {"refs", "lls", "mixed", "bits", "tags", "members", "geom", "plh", "commonpoint", "fullpoint", "path", "area", "relation"}
   AreaRelEncP = 4
 INVARIANTS RoundTrip Framing
